@@ -776,3 +776,31 @@ pub fn program_text(prog: &[Stmt]) -> String {
 pub fn stmt_text(s: &Stmt) -> String {
     render(std::slice::from_ref(s)).text()
 }
+
+/// The statements of a program in the order in which `render` numbers them (preorder).
+pub fn preorder<'a>(prog: &'a [Stmt]) -> Vec<&'a Stmt> {
+    fn walk<'a>(stmts: &'a [Stmt], out: &mut Vec<&'a Stmt>) {
+        for s in stmts {
+            out.push(s);
+            match s {
+                Stmt::Label { block: Some(b), .. } => walk(b, out),
+                Stmt::Braces(b) => walk(b, out),
+                Stmt::Loop { body, .. } => walk(body, out),
+                Stmt::If { then, els, .. } => {
+                    walk(then, out);
+                    if let Some(e) = els {
+                        walk(e, out);
+                    }
+                }
+                Stmt::MacroDef { body, .. } => walk(body, out),
+                Stmt::Segment { block: Some(b), .. } => walk(b, out),
+                Stmt::Import { block: Some(b), .. } => walk(b, out),
+                Stmt::Test { body, .. } => walk(body, out),
+                _ => {}
+            }
+        }
+    }
+    let mut out = vec![];
+    walk(prog, &mut out);
+    out
+}
